@@ -133,6 +133,21 @@ func TestVerifC17Ipset(t *testing.T) {
 		{[]string{"::/0"}, []string{"::", "ffff:ffff:ffff:ffff:ffff:ffff:ffff:ffff", "1.2.3.4", "::ffff:1.2.3.4"}},
 		{[]string{"fe80::/64", "fe80::/63", "fe80:0:0:1::/64"}, []string{"fe80::1", "fe80:0:0:1::1", "fe80:0:0:2::", "fe7f:ffff:ffff:ffff:ffff:ffff:ffff:ffff"}},
 	}
+	// ... and the corpus (corpus/C17/ipset.json): minimal failing inputs of every seeded change this driver caught
+	if dir := os.Getenv("VERIF_CORPUS"); dir != "" {
+		if raw, err := os.ReadFile(dir + "/ipset.json"); err == nil {
+			var extra []struct {
+				Cidrs  []string `json:"cidrs"`
+				Probes []string `json:"probes"`
+			}
+			if err := json.Unmarshal(raw, &extra); err != nil {
+				t.Fatalf("corpus ipset.json: %v", err)
+			}
+			for _, e := range extra {
+				fixed = append(fixed, fixedCase{e.Cidrs, e.Probes})
+			}
+		}
+	}
 	for _, fc := range fixed {
 		set, _ := New(fc.cidrs)
 		var good []netip.Prefix
@@ -326,4 +341,128 @@ func genBitsAtLeast(r *rand.Rand, is4 bool, min int) int {
 		b = min
 	}
 	return b
+}
+
+// TestVerifC17IpsetSmall — thorough tier only: exhaustive small scope. Every ORDERED list of up to three prefixes
+// (the order a list is configured in is what an unstable sort may or may not preserve) over a tiny universe, and
+// every address of the universe plus its two outside neighbours, in three places: an IPv4 block of 8 addresses
+// (all 15 prefixes /29../32 inside it), the same block probed in 4-in-6 form, and 8 IPv6 addresses straddling the
+// 64-bit half boundary of the 128-bit key (H:ffff:ffff:ffff:fffc .. H+1::3 — the /63, both /64, the /126, /127, /128
+// inside: 17 prefixes; ordered pairs and unordered triples).
+func TestVerifC17IpsetSmall(t *testing.T) {
+	tr := vOpen(t)
+	defer tr.f.Close()
+	run := func(kind string, cidrs []netip.Prefix, probes []netip.Addr) {
+		var cs []string
+		for _, p := range cidrs {
+			cs = append(cs, p.String())
+		}
+		set, _ := New(cs)
+		var pcoq, acoq, adesc []string
+		goFail := ""
+		for _, p := range cidrs {
+			pcoq = append(pcoq, fmt.Sprintf("mk_prefix %v %s %d", p.Addr().Is4(), addrBig(p.Addr()).String(), p.Bits()))
+		}
+		hits := 0
+		for _, a := range probes {
+			got := set.Contains(a)
+			ua := a
+			if ua.Is4In6() {
+				ua = ua.Unmap()
+			}
+			want := false
+			for _, p := range cidrs {
+				if p.Masked().Contains(ua) {
+					want = true
+				}
+			}
+			if got {
+				hits++
+			}
+			if got != want && goFail == "" {
+				goFail = fmt.Sprintf("Contains(%s)=%v but naive scan over %v says %v", a, got, cs, want)
+			}
+			acoq = append(acoq, fmt.Sprintf("(mk_addr %v %s, %v)", a.Is4(), addrBig(a).String(), got))
+			adesc = append(adesc, fmt.Sprintf("%s=%v", a, got))
+		}
+		tr.emit(map[string]any{"k": kind, "coq": "CaseSet [" + strings.Join(pcoq, "; ") + "] [" + strings.Join(acoq, "; ") + "]", "go_fail": goFail,
+			"nontrivial": hits > 0 && hits < len(probes), "desc": map[string]any{"cidrs": cs, "probes": adesc}})
+	}
+	universe := func(base netip.Addr, top int, addrs []netip.Addr) []netip.Prefix {
+		seen := map[netip.Prefix]bool{}
+		var out []netip.Prefix
+		for bits := top; bits <= base.BitLen(); bits++ {
+			for _, a := range addrs {
+				p, _ := a.Prefix(bits)
+				if !seen[p] {
+					seen[p] = true
+					// host bits kept on every second prefix: New must mask them
+					if len(out)%2 == 1 {
+						p = netip.PrefixFrom(a, bits)
+					}
+					out = append(out, p)
+				}
+			}
+		}
+		return out
+	}
+	// IPv4: 10.0.0.8/29
+	var a4 []netip.Addr
+	for i := 0; i < 8; i++ {
+		a4 = append(a4, netip.AddrFrom4([4]byte{10, 0, 0, byte(8 + i)}))
+	}
+	u4 := universe(a4[0], 29, a4)
+	probes4 := append([]netip.Addr{netip.MustParseAddr("10.0.0.7"), netip.MustParseAddr("10.0.0.16")}, a4...)
+	var probes4in6 []netip.Addr
+	for _, a := range probes4 {
+		probes4in6 = append(probes4in6, netip.AddrFrom16(a.As16()))
+	}
+	run("small-v4", nil, probes4)
+	for i := range u4 {
+		run("small-v4", []netip.Prefix{u4[i]}, probes4)
+		for j := range u4 {
+			run("small-v4", []netip.Prefix{u4[i], u4[j]}, probes4)
+			for k := range u4 {
+				pr := probes4
+				if (i+j+k)%4 == 0 {
+					pr = probes4in6
+				}
+				run("small-v4", []netip.Prefix{u4[i], u4[j], u4[k]}, pr)
+			}
+		}
+	}
+	// IPv6 across the half boundary: 2001:db8:0:2:ffff:ffff:ffff:fffc .. 2001:db8:0:3::3
+	var a6 []netip.Addr
+	first := netip.MustParseAddr("2001:db8:0:2:ffff:ffff:ffff:fffc")
+	a := first
+	for i := 0; i < 8; i++ {
+		a6 = append(a6, a)
+		a = a.Next()
+	}
+	var u6 []netip.Prefix
+	for _, bits := range []int{63, 64, 126, 127, 128} {
+		seen := map[netip.Prefix]bool{}
+		for _, x := range a6 {
+			p, _ := x.Prefix(bits)
+			if !seen[p] {
+				seen[p] = true
+				if len(u6)%2 == 1 {
+					p = netip.PrefixFrom(x, bits)
+				}
+				u6 = append(u6, p)
+			}
+		}
+	}
+	probes6 := append([]netip.Addr{first.Prev(), a, netip.MustParseAddr("2001:db8:0:2::"), netip.MustParseAddr("2001:db8:0:3:ffff:ffff:ffff:ffff"), netip.MustParseAddr("2001:db8:0:4::"), netip.MustParseAddr("2001:db8:0:1:ffff:ffff:ffff:ffff")}, a6...)
+	for i := range u6 {
+		run("small-v6-half-boundary", []netip.Prefix{u6[i]}, probes6)
+		for j := range u6 {
+			run("small-v6-half-boundary", []netip.Prefix{u6[i], u6[j]}, probes6)
+			for k := j + 1; k < len(u6); k++ {
+				if i < j {
+					run("small-v6-half-boundary", []netip.Prefix{u6[i], u6[j], u6[k]}, probes6)
+				}
+			}
+		}
+	}
 }
